@@ -57,7 +57,7 @@ fn sig80(b: &[u8]) -> Result<&[u8; 80], ()> {
 
 const OPS: &[&str] = &[
     "keygen", "keyrandom", "sk2pk", "gens", "h2s", "m2s", "ms2s", "sign", "verify", "update", "proofgen",
-    "proofverify", "commit", "dvc", "blindsign", "blindverify", "blindproofgen", "blindproofverify",
+    "proofverify", "proofverifyraw", "commit", "dvc", "blindsign", "blindverify", "blindproofgen", "blindproofverify",
 ];
 
 fn run<CS: BbsCiphersuite>(op: &str, t: &[&str]) -> Option<Out>
@@ -162,6 +162,22 @@ where
         }
         "proofverify" => {
             let pk = tr!(BBSplusPublicKey::from_bytes(&bytes(t[0])));
+            let p = tr!(PoKSignature::<BBSplus<CS>>::from_bytes(&bytes(t[1])));
+            let dm = opt_list(t[2]);
+            let ix = opt_idx(t[3]);
+            let hd = opt_bytes(t[4]);
+            let ph = opt_bytes(t[5]);
+            tr!(p.proof_verify(&pk, dm.as_deref(), ix.as_deref(), hd.as_deref(), ph.as_deref()));
+            Out::Ok(vec![])
+        }
+        // proof_verify with a public key built directly from a (possibly identity) G2 point and the proof taken
+        // from its JSON / octet form: the verifier's own checks, not the key decoder's, must refuse degenerate input
+        "proofverifyraw" => {
+            let kb = bytes(t[0]);
+            let arr = match <[u8; 96]>::try_from(kb.as_slice()) { Ok(a) => a, Err(_) => return Out::Err };
+            let aff = bls12_381_plus::G2Affine::from_compressed(&arr);
+            if bool::from(aff.is_none()) { return Out::Err; }
+            let pk = BBSplusPublicKey(bls12_381_plus::G2Projective::from(aff.unwrap()));
             let p = tr!(PoKSignature::<BBSplus<CS>>::from_bytes(&bytes(t[1])));
             let dm = opt_list(t[2]);
             let ix = opt_idx(t[3]);
